@@ -20,6 +20,15 @@ and generated values (`readBuildFile`, `runSystem`), `mapFromCoG`, `constructVS`
 `VIRTUAL_SITES` table, `verdict`, `computeVolume`; specification: `specSharing`, `specCentred`,
 `specOnePerName`, `gmxConstruct` (the GROMACS manual's constructions), `withinTolerance`.
 
+Extension (`Model/TemplatesBlock.lean`): `extract_block`, `_relabel_interaction_atoms`,
+`find_interaction_involving`, `_good_impropers`, `_expand_inital_coords` (scripted layouts in place of
+networkx' Kamada-Kawai), `minimizer.renew_vs` and the closure `target_function` of `optimize_geometry` (captured
+through a stub of scipy's minimiser) are driven directly on generated vermouth molecules / blocks and compared with
+`extractBlock`, `relabelAtoms`, `findInteraction`, `goodImpropers`, `expandInitialCoords`, `renewVS`, `energy`.
+Oracle on the real `extract_block` (property text: "one position per atom name", "its bond, constraint, angle and
+improper targets"): the block has one node per distinct atom name of the residue and holds exactly the molecule's
+interactions that lie inside the residue (`firstOccurrences`, `insideResidue`, `image`).
+
 ORACLES / partial (not verified, named in ctx.assumptions):
   * Weisfeiler–Lehman graph hash (`networkx.weisfeiler_lehman_graph_hash`, node_attr='atomname'): a parameter
     `h` of the model, assumed equal on isomorphic atom-name-labelled graphs; the harness computes it with the
@@ -47,7 +56,17 @@ RULE = ("stream `system`: generated topologies (1-3 molecule types x 1-4 residue
         "infeasible geometries), optional build file with [ template ] and [ volumes ] blocks in either order, "
         "skip_filter on/off, real GenerateTemplates(max_opt=10).run_system; streams `vs`, `cog`, `verdict` "
         "(live and stub optimiser), `volume`: direct calls on dyadic inputs.  Non-trivial: a system case with "
-        ">= 2 residues, any direct case with >= 2 atoms; distinct = (stream, generator seed).")
+        ">= 2 residues, any direct case with >= 2 atoms; distinct = (stream, generator seed).  Extension streams: "
+        "`block` (vermouth molecules of 1-4 residues x 1-5 atoms, non-contiguous node keys, repeated atom names in 30% "
+        "of the residues, 1-6 interaction types x 0-3 interactions inside / across residues, parameters that are "
+        "defines incl. a chained and an empty define, meta edge flags, shuffled / arbitrary node subsets: real "
+        "extract_block on a deep copy, then find_interaction_involving on the block it made and "
+        "_relabel_interaction_atoms on one interaction); `find` (EXHAUSTIVE: 7 x 7 ordered pairs of interaction types "
+        "both holding the node pair x 6 variants: dict order reversed, nodes swapped, same node, unlinked pairs); "
+        "`impropers` (_good_impropers: function types 1/2/4/9, references 0, +-1e-9, +-1e-8 (numpy's isclose bound, hit "
+        "exactly), +-2e-8, +-35, +-180 ...); `expand` (_expand_inital_coords with a scripted layout sequence, max_count "
+        "0..8, bound hit / not hit); `energy` (renew_vs with sites built from sites constructed earlier and later, the "
+        "energy of the captured target_function).")
 
 TOL9 = "1/1000000000"
 TOL6 = "1/1000000"
@@ -1113,9 +1132,446 @@ def volume_case(ctx, replay):
     return reqs, judge
 
 
+# ------------------------------------------------------------------------------------------ block streams
+# (extension: extract_block, _relabel_interaction_atoms, find_interaction_involving, _good_impropers,
+#  _expand_inital_coords, renew_vs, target_function against Model/TemplatesBlock.lean)
+
+BLOCK_TYPES = ["bonds", "angles", "constraints", "dihedrals", "virtual_sitesn", "virtual_sites2", "virtual_sites3",
+               "virtual_sites4", "exclusions", "pairs"]
+BLOCK_ARITY = {"bonds": (2, 2), "constraints": (2, 2), "angles": (3, 3), "dihedrals": (4, 4), "virtual_sitesn": (3, 5),
+               "virtual_sites2": (3, 3), "virtual_sites3": (4, 4), "virtual_sites4": (5, 5), "exclusions": (2, 3),
+               "pairs": (2, 2)}
+BLOCK_DEFINES = {"LEN": ["0.47"], "KB": ["1250"], "BOTH": ["0.3", "500"], "CHAIN": ["LEN"], "EMPTY": []}
+ATOL_ISCLOSE = 1e-8        # numpy's default `atol` of np.isclose (trusted; the model takes it as a parameter)
+
+
+def ixn_json(inter, key=str):
+    return dict(atoms=[key(a) for a in inter.atoms], params=[str(x) for x in inter.parameters],
+                edge=bool(inter.meta.get("edge", True)))
+
+
+def ixn_canon(obj):
+    return (tuple(obj["atoms"]), tuple(obj["params"]), bool(obj["edge"]))
+
+
+def typed_canon(pairs):
+    """[(type, [interaction json])] -> sorted by type, empty types dropped; order inside a type kept"""
+    return sorted((t, [ixn_canon(i) for i in l]) for t, l in pairs if l)
+
+
+def gen_block_molecule(rng):
+    """a vermouth Molecule of 1-4 residues with interactions inside residues and across them, parameters that
+    are defines, repeated atom names inside a residue now and then, virtual sites, meta edge flags"""
+    import vermouth
+    from vermouth.molecule import Interaction
+    mol = vermouth.molecule.Molecule()
+    nres = rng.randint(1, 4)
+    node = rng.choice([0, 0, 1, 7])
+    pool = rng.choice([["A", "B", "C", "D", "E"], ["BB", "SC1", "SC2", "SC3", "VS"]])
+    residues, repeated = [], False
+    for res in range(nres):
+        n = rng.randint(1, 5)
+        names = pool[:n]
+        if n >= 2 and rng.random() < 0.3:
+            names = list(names)
+            names[rng.randrange(1, n)] = names[0]
+            repeated = True
+        ids = []
+        for name in names:
+            mol.add_node(node, atomname=name, resname="R%d" % (res % 2), resid=res + 1, atype=rng.choice("PQS"), tag=node)
+            ids.append(node)
+            node += rng.choice([1, 1, 1, 2])
+        residues.append(ids)
+    everything = [n for ids in residues for n in ids]
+    types = rng.sample(BLOCK_TYPES, rng.randint(1, 6))
+    tokens = ["0.47", "1250", "LEN", "KB", "BOTH", "120", "CHAIN", "EMPTY", "1"]
+    for inter_type in types:
+        lo, hi = BLOCK_ARITY[inter_type]
+        for _ in range(rng.randint(0, 3)):
+            arity = rng.randint(lo, hi)
+            src = rng.choice(residues) if rng.random() < 0.65 else everything
+            atoms = rng.sample(src, arity) if len(src) >= arity else [rng.choice(src) for _ in range(arity)]
+            params = [rng.choice(["1", "2"])] + [rng.choice(tokens) for _ in range(rng.randint(0, 3))]
+            meta = rng.choice([{}, {}, {}, {"edge": False}, {"comment": "x"}, {"edge": True}])
+            mol.interactions[inter_type].append(Interaction(atoms=tuple(atoms), parameters=params, meta=dict(meta)))
+    defines = {k: list(BLOCK_DEFINES[k]) for k in BLOCK_DEFINES if rng.random() < 0.6}
+    which = rng.randrange(nres)
+    nodes = list(residues[which])
+    if rng.random() < 0.3:
+        rng.shuffle(nodes)
+    if rng.random() < 0.12:
+        nodes = rng.sample(everything, rng.randint(1, len(everything)))     # any node subset is a legal template graph
+    return mol, nodes, defines, repeated
+
+
+def block_case(ctx, replay):
+    import copy
+    import networkx as nx
+    from polyply.src import generate_templates as gt
+    rng = random.Random(replay["seed"])
+    mol, nodes, defines, repeated = gen_block_molecule(rng)
+    graph = nx.Graph()
+    graph.add_nodes_from(nodes)
+    names = [[n, mol.nodes[n]["atomname"]] for n in mol.nodes]
+    mol_json = [[t, [ixn_json(i, int) for i in l]] for t, l in mol.interactions.items()]
+    work = copy.deepcopy(mol)
+    try:
+        block = gt.extract_block(work, graph, {k: list(v) for k, v in defines.items()})
+        err = None
+    except Exception as exc:  # pylint: disable=broad-except
+        block, err = None, "%s: %s" % (type(exc).__name__, exc)
+    reqs = [dict(op="extract_block", names=names, nodes=nodes, interactions=mol_json,
+                 defines=[[k, v] for k, v in defines.items()])]
+    impl = None
+    finds = []
+    if err is None:
+        impl = dict(nodes=sorted((str(k), block.nodes[k].get("tag")) for k in block.nodes),
+                    interactions=typed_canon((t, [ixn_json(i) for i in l]) for t, l in block.interactions.items()),
+                    edges=sorted({tuple(sorted((str(a), str(b)))) for a, b in block.edges}),
+                    molecule_after=typed_canon((t, [ixn_json(i, int) for i in l]) for t, l in work.interactions.items()))
+        # find_interaction_involving on the block the real code made
+        block_names = [str(k) for k in block.nodes]
+        block_json = [[t, [ixn_json(i) for i in l]] for t, l in block.interactions.items()]
+        pairs = [(rng.choice(block_names), rng.choice(block_names)) for _ in range(3)] + [(block_names[0], "ZZ")]
+        for cur, prev in pairs:
+            try:
+                flag, inter, inter_type = gt.find_interaction_involving(block, cur, prev)
+                got = dict(ok=True, vs=bool(flag), interaction=ixn_canon(ixn_json(inter)), type=str(inter_type))
+            except Exception:  # pylint: disable=broad-except
+                got = dict(ok=False)
+            finds.append(((cur, prev), got))
+            reqs.append(dict(op="find", interactions=block_json, cur=cur, prev=prev))
+    # _relabel_interaction_atoms on one interaction of the molecule (inside or across the node set)
+    all_inters = [i for l in mol.interactions.values() for i in l]
+    relabel = None
+    if all_inters:
+        inter = copy.deepcopy(rng.choice(all_inters))
+        mapping = {n: mol.nodes[n]["atomname"] for n in nodes}
+        try:
+            out = gt._relabel_interaction_atoms(inter, mapping)  # pylint: disable=protected-access
+            relabel = dict(ok=True, interaction=ixn_canon(ixn_json(out)))
+        except KeyError:
+            relabel = dict(ok=False)
+        reqs.append(dict(op="relabel", names=names, nodes=nodes, interaction=ixn_json(inter, int)))
+
+    def judge(answers):
+        ans = answers[0]
+        if err is not None:
+            ctx.correspond("extract_block", dict(ok=False, err=err), dict(ok=True), replay)
+            # no block, hence no template for a residue of a well-formed molecule
+            ctx.oracle_fail("block-extraction-raises", "extract_block raised %s for the residue atoms %s of a molecule with the "
+                            "interactions %s" % (err, nodes, mol_json), replay)
+            ctx.case(None, stream="block", outcome="raises")
+            return
+        model = dict(nodes=sorted((k, n) for k, n in ans["nodes"]),
+                     interactions=typed_canon(ans["interactions"]),
+                     edges=sorted({tuple(sorted(e)) for e in ans["edges"]}),
+                     molecule_after=typed_canon(ans["molecule_after"]))
+        ctx.correspond("extract_block", impl, model, replay)
+        # property text: one position per atom NAME -> one block node per distinct atom name of the residue
+        keys = [k for k, _ in impl["nodes"]]
+        if sorted(keys) != sorted(ans["spec_names"]) or len(set(keys)) != len(keys):
+            ctx.oracle_fail("block-not-one-node-per-name", "extract_block made the nodes %s for a residue whose atom names are %s"
+                            % (keys, [mol.nodes[n]["atomname"] for n in nodes]), replay)
+        # frame: exactly the interactions inside the residue, relabelled
+        if impl["interactions"] != typed_canon(ans["spec_inside"]):
+            ctx.oracle_fail("block-interactions-not-inside", "block interactions %s, the molecule's interactions inside the residue are %s"
+                            % (impl["interactions"], typed_canon(ans["spec_inside"])), replay)
+        pos = 1
+        for (cur, prev), got in finds:
+            a = answers[pos]
+            pos += 1
+            mod = dict(ok=True, vs=a["vs"], interaction=ixn_canon(a["interaction"]), type=a["type"]) if a["ok"] else dict(ok=False)
+            ctx.correspond("find_interaction_involving", got, mod, dict(replay, pair=[cur, prev]))
+        if relabel is not None:
+            a = answers[pos]
+            mod = dict(ok=True, interaction=ixn_canon(a["interaction"])) if a["ok"] else dict(ok=False)
+            ctx.correspond("_relabel_interaction_atoms", relabel, mod, replay)
+        kept = sum(len(l) for _, l in impl["interactions"])
+        total = sum(len(l) for l in mol.interactions.values())
+        ctx.case(("block", replay["seed"]) if total >= 2 and len(mol.nodes) >= 3 else None,
+                 sample=dict(stream="block", atoms=len(mol.nodes), interactions=total, kept=kept), stream="block",
+                 block_names="repeated" if len(keys) < len(nodes) else "distinct",
+                 block_kept="none" if kept == 0 else "all" if kept == total else "some",
+                 block_defines="substituted" if impl["molecule_after"] != typed_canon(mol_json) else "untouched")
+    return reqs, judge
+
+
+FIND_TYPES = ["bonds", "constraints", "virtual_sitesn", "virtual_sites2", "virtual_sites3", "virtual_sites4", "angles"]
+
+
+def find_case(ctx, replay):
+    """find_interaction_involving, EXHAUSTIVE over ordered pairs of interaction types both holding an interaction
+    with the two nodes (the dict order of block.interactions being the reverse of the search order or not), and
+    over the variants linked / swapped / same node / unlinked"""
+    import vermouth
+    from polyply.src import generate_templates as gt
+    first, second, variant = replay["first"], replay["second"], replay["variant"]
+    block = vermouth.molecule.Block()
+    for name in ("A", "B", "C", "V", "W"):
+        block.add_node(name, atomname=name, resname="X")
+
+    def atoms_for(inter_type, shift):
+        if inter_type in ("bonds", "constraints"):
+            return ["A", "B"] if not shift else ["B", "A"]
+        if inter_type == "angles":
+            return ["A", "B", "C"]
+        return [("V" if not shift else "W"), "A", "B"] + (["C"] if inter_type in ("virtual_sites3", "virtual_sitesn") else []) \
+            + (["C", "W" if not shift else "V"] if inter_type == "virtual_sites4" else [])
+    order = [first, second] if variant % 2 == 0 else [second, first]
+    for inter_type in order:     # dict insertion order
+        block.interactions.setdefault(inter_type, [])
+    # a decoy that holds only the current node comes first in every type
+    for k, inter_type in enumerate([first, second]):
+        if not block.interactions[inter_type]:
+            block.interactions[inter_type].append(make_interaction(["A", "C"] if inter_type != "angles" else ["A", "C", "V"], ["1", "9"]))
+        block.interactions[inter_type].append(make_interaction(atoms_for(inter_type, k == 1), ["1", "%d" % (k + 1)]))
+    cur, prev = {0: ("A", "B"), 1: ("A", "B"), 2: ("B", "A"), 3: ("A", "A"), 4: ("A", "W"), 5: ("C", "W")}[variant]
+    try:
+        flag, inter, inter_type = gt.find_interaction_involving(block, cur, prev)
+        got = dict(ok=True, vs=bool(flag), interaction=ixn_canon(ixn_json(inter)), type=str(inter_type))
+    except Exception:  # pylint: disable=broad-except
+        got = dict(ok=False)
+    reqs = [dict(op="find", interactions=[[t, [ixn_json(i) for i in l]] for t, l in block.interactions.items()], cur=cur, prev=prev)]
+
+    def judge(answers):
+        a = answers[0]
+        mod = dict(ok=True, vs=a["vs"], interaction=ixn_canon(a["interaction"]), type=a["type"]) if a["ok"] else dict(ok=False)
+        ctx.correspond("find_interaction_involving", got, mod, replay)
+        ctx.tally(find_type_pairs="exhaustive (7 x 7 ordered pairs x 6 variants)")
+        ctx.case(("find", first, second, variant), sample=dict(stream="find", first=first, second=second, variant=variant),
+                 stream="find", find_outcome=("virtual" if got.get("vs") else "bond-like") if got["ok"] else "raises")
+    return reqs, judge
+
+
+def impropers_case(ctx, replay):
+    """_good_impropers: dihedrals of function types 1/2/4/9, references around zero and numpy's isclose bound"""
+    import vermouth
+    from polyply.src import generate_templates as gt
+    rng = random.Random(replay["seed"])
+    block = vermouth.molecule.Block()
+    names = ["A%d" % i for i in range(rng.randint(4, 6))]
+    coords = {}
+    for name in names:
+        block.add_node(name, atomname=name, resname="X")
+        coords[name] = np.array([dy(rng, -2, 2), dy(rng, -2, 2), dy(rng, -2, 2)])
+    refs = ["0", "0.0", "-0.0", "1e-9", "-1e-9", "1e-8", "-1e-8", "1.0000000000000002e-08", "2e-8", "-2e-8",
+            "35", "-35", "180", "-180", "0.5", "-120"]
+    items, degenerate = [], False
+    for _ in range(rng.randint(0, 4)):
+        atoms = rng.sample(names, 4)
+        func = rng.choice(["2", "2", "2", "1", "4", "9"])
+        ref = rng.choice(refs)
+        block.interactions["dihedrals"].append(make_interaction(atoms, [func, ref, "50"]))
+        angle = m_dihedral(*[coords[a] for a in atoms])
+        if not math.isfinite(angle) or abs(angle) < 1e-6 or abs(abs(angle) - 180.0) < 1e-6:
+            degenerate = True
+        items.append(dict(func=func, angle=rat_str(angle), ref=rat_str(float(ref))))
+    if rng.random() < 0.3:
+        block.interactions["bonds"].append(make_interaction(names[:2], ["1", "0.3", "100"]))
+    try:
+        with np.errstate(all="ignore"):
+            good = bool(gt._good_impropers(coords, block))  # pylint: disable=protected-access
+        err = None
+    except Exception as exc:  # pylint: disable=broad-except
+        good, err = None, type(exc).__name__
+    reqs = [dict(op="good_impropers", items=items, atol=rat_str(ATOL_ISCLOSE))]
+
+    def judge(answers):
+        if degenerate:
+            ctx.tally(impropers_degenerate_geometry=True)      # sign of a flat / undefined dihedral: not compared
+        elif err is not None:
+            ctx.correspond("_good_impropers", dict(ok=False, err=err), dict(ok=True, good=answers[0]["good"]), replay)
+        else:
+            ctx.correspond("_good_impropers", dict(good=good), dict(good=answers[0]["good"]), replay)
+        ctx.case(("impropers", replay["seed"]) if items and not degenerate else None,
+                 sample=dict(stream="impropers", n=len(items)), stream="impropers",
+                 impropers_good=str(good), impropers_n=len(items) if len(items) < 3 else "3+")
+    return reqs, judge
+
+
+def expand_case(ctx, replay):
+    """_expand_inital_coords with a scripted layout sequence in place of networkx' Kamada-Kawai layout: which
+    layout is returned and how many are drawn"""
+    import inspect
+    import networkx as nx
+    import vermouth
+    from polyply.src import generate_templates as gt
+    rng = random.Random(replay["seed"])
+    block = vermouth.molecule.Block()
+    names = ["A", "B", "C", "D"]
+    for name in names:
+        block.add_node(name, atomname=name, resname="X")
+    block.interactions["bonds"].append(make_interaction(["A", "B"], ["1", "0.3", "100"]))
+    with_improper = rng.random() < 0.85
+    if with_improper:
+        block.interactions["dihedrals"].append(make_interaction(names, ["2", "35", "50"]))
+    max_count = replay.get("max_count", rng.choice([0, 1, 2, 3, 5, 8]))
+    goods = [rng.random() < 0.25 for _ in range(max_count + 3)]
+    if rng.random() < 0.3:
+        goods = [False] * len(goods)
+    calls = []
+
+    def layout(graph, *args, **kwargs):
+        k = len(calls)
+        calls.append(k)
+        good = goods[k] if k < len(goods) else False
+        z = -0.5 if good else 0.5       # sign of the dihedral A-B-C-D: + for z < 0 (GROMACS convention)
+        base = {"A": [1.0, 0.0, 0.0], "B": [0.0, 0.0, 0.0], "C": [0.0, 1.0, 0.0], "D": [-0.5, 1.0, z]}
+        return {n: np.array(base[n]) + np.array([float(k), 0.0, 0.0]) for n in graph.nodes}
+    if m_dihedral([1.0, 0, 0], [0, 0, 0], [0, 1.0, 0], [-0.5, 1.0, -0.5]) < 0:
+        raise RuntimeError("harness: scripted layout has the wrong hand")
+    targets = [(nx, "kamada_kawai_layout"), (nx.drawing.layout, "kamada_kawai_layout"), (nx.drawing, "kamada_kawai_layout")]
+    if hasattr(gt, "kamada_kawai_layout"):
+        targets.append((gt, "kamada_kawai_layout"))
+    saved = [(obj, name, getattr(obj, name)) for obj, name in targets if hasattr(obj, name)]
+    try:
+        for obj, name, _ in saved:
+            setattr(obj, name, layout)
+        with np.errstate(all="ignore"):
+            out = gt._expand_inital_coords(block, max_count=max_count)  # pylint: disable=protected-access
+        err = None
+    except Exception as exc:  # pylint: disable=broad-except
+        out, err = None, "%s: %s" % (type(exc).__name__, exc)
+    finally:
+        for obj, name, orig in saved:
+            setattr(obj, name, orig)
+    index = int(round(float(out["B"][0]))) if out is not None else None
+    default = inspect.signature(gt._expand_inital_coords).parameters["max_count"].default  # pylint: disable=protected-access
+    model_goods = [bool(g) or not with_improper for g in goods]
+    reqs = [dict(op="expand", goods=model_goods, max_count=max_count)]
+
+    def judge(answers):
+        a = answers[0]
+        ctx.correspond("_expand_inital_coords", dict(ok=err is None, index=index, calls=len(calls), default_max_count=default),
+                       dict(ok=True, index=a["index"], calls=a["calls"], default_max_count=a["default_max_count"]), replay)
+        ctx.case(("expand", replay["seed"]), sample=dict(stream="expand", max_count=max_count, calls=len(calls)), stream="expand",
+                 expand_stop="bound" if len(calls) == max_count + 1 and not model_goods[len(calls) - 1] else "good")
+    return reqs, judge
+
+
+AFFINE_VS = {("virtual_sites2", "1"), ("virtual_sites3", "1"), ("virtual_sitesn", "1"), ("virtual_sitesn", "2")}
+
+
+def energy_case(ctx, replay):
+    """minimizer.renew_vs (which rows are recomputed, in which order: sites built from sites) and the energy the
+    closure target_function of optimize_geometry returns (captured through a stub of scipy's minimiser)"""
+    from collections import OrderedDict
+    import vermouth
+    import scipy.optimize
+    from polyply.src import minimizer
+    rng = random.Random(replay["seed"])
+    block = vermouth.molecule.Block()
+    nreal = rng.randint(3, 5)
+    real = ["A%d" % i for i in range(nreal)]
+    order = list(real)
+    vs_specs = {("virtual_sites2", "1"): (2, 1), ("virtual_sites3", "1"): (3, 2), ("virtual_sites3", "2"): (3, 2),
+                ("virtual_sites3", "4"): (3, 3), ("virtual_sites4", "2"): (4, 3), ("virtual_sitesn", "1"): (None, 0),
+                ("virtual_sitesn", "2"): (None, 0)}
+    sites, vs_json = [], {}
+    for k in range(rng.randint(0, 4)):
+        (vs_type, func), (natoms, nparams) = rng.choice(sorted(vs_specs.items()))
+        affine = (vs_type, func) in AFFINE_VS
+        # a site may be built from other sites (constructed earlier OR later in renew_vs' order) - only for the affine
+        # constructions: sites of sites are collinear / coplanar by construction, which makes the normalised ones
+        # exactly degenerate in rationals and rounding noise in doubles
+        pool = real + (sites if affine and rng.random() < 0.6 else [])
+        natoms = natoms or rng.randint(1, 3)
+        if len(pool) < natoms:
+            continue
+        site = "V%d" % k
+        defining = rng.sample(pool, natoms)
+        params = [dy(rng, -1, 2, 4) for _ in range(nparams)]
+        sites.append(site)
+        order.insert(rng.randrange(len(order) + 1), site)
+        block.interactions.setdefault(vs_type, []).append(make_interaction([site] + defining, [func] + params))
+        vs_json.setdefault(vs_type, []).append(dict(atoms=[site] + defining, func=func, params=[rat_str(p) for p in params]))
+    if sites and rng.random() < 0.4:
+        # let the FIRST site of the block depend on the last one: it must see the value of the previous round
+        first_type = next(t for t in block.interactions)
+        inter = block.interactions[first_type][0]
+        if len(inter.atoms) >= 2 and sites[-1] != inter.atoms[0] and (first_type, inter.parameters[0]) in AFFINE_VS:
+            atoms = list(inter.atoms)
+            atoms[1] = sites[-1]
+            block.interactions[first_type][0] = inter._replace(atoms=tuple(atoms))
+            vs_json[first_type][0]["atoms"] = atoms
+    for name in order:
+        block.add_node(name, atomname=name, resname="X")
+    coords = OrderedDict((name, np.array([dy(rng, -2, 2), dy(rng, -2, 2), dy(rng, -2, 2)])) for name in order)
+    for i in range(nreal - 1):
+        kind = "constraints" if rng.random() < 0.3 else "bonds"
+        block.interactions.setdefault(kind, []).append(make_interaction([real[i], real[i + 1]], ["1", repr(dy(rng, 0.125, 1, 4))]))
+    if sites and rng.random() < 0.5:
+        block.interactions.setdefault("bonds", []).append(make_interaction([sites[0], real[0]], ["1", "0.25"]))
+    for i in range(nreal - 2):
+        if rng.random() < 0.6:
+            block.interactions.setdefault("angles", []).append(make_interaction(real[i:i + 3], ["1", repr(float(rng.choice([90, 120, 135, 180]))), "10"]))
+    for i in range(nreal - 3):
+        block.interactions.setdefault("dihedrals", []).append(
+            make_interaction(real[i:i + 4], [rng.choice(["2", "2", "1"]), repr(float(rng.choice([0, 35, -35, 180]))), "10"]))
+    inter_types = rng.choice([["bonds", "constraints", "angles"], ["bonds", "constraints", "angles", "dihedrals"], ["angles", "bonds"]])
+    atom_to_idx = OrderedDict(zip(order, range(len(order))))
+    positions = np.array([coords[n] for n in order])
+    try:
+        with np.errstate(all="ignore"):
+            renewed = minimizer.renew_vs(positions.copy(), block, atom_to_idx)
+        renewed = np.array(renewed, dtype=float).reshape((-1, 3))
+        err = None
+        if not np.all(np.isfinite(renewed)):
+            err = "nan"
+    except Exception as exc:  # pylint: disable=broad-except
+        renewed, err = None, type(exc).__name__
+    captured = []
+    orig = scipy.optimize.minimize
+
+    def stub(fun, x0, **kwargs):
+        captured.append(fun)
+        return {"x": np.array(x0, dtype=float)}
+    energy = None
+    if err is None:
+        scipy.optimize.minimize = stub
+        try:
+            with np.errstate(all="ignore"):
+                minimizer.optimize_geometry(block, OrderedDict((k, v.copy()) for k, v in coords.items()), inter_types)
+                if captured:
+                    energy = float(captured[0](positions.copy().ravel()))
+        except Exception:  # pylint: disable=broad-except
+            energy = None
+        finally:
+            scipy.optimize.minimize = orig
+    reqs = [dict(op="renew_vs", interactions=[[t, l] for t, l in vs_json.items()],
+                 positions=[[n, v3(coords[n])] for n in order])]
+    items = None
+    if err is None and energy is not None and math.isfinite(energy):
+        items = measure_items(block, {n: renewed[i] for n, i in atom_to_idx.items()}, inter_types)
+        if items is not None:
+            reqs.append(dict(op="energy", items=items))
+
+    def judge(answers):
+        a = answers[0]
+        if err == "nan" or (err is None and not a["ok"]):
+            ctx.tally(renew_vs_degenerate=True)           # 0/0 in the doubles is a value for numpy, a raise/0 for the model
+        elif err is not None:
+            ctx.correspond("renew_vs", dict(ok=False), dict(ok=a["ok"]), replay)
+        else:
+            agree = [k for k, _ in a["positions"]] == order and \
+                all(vec_close(renewed[i], vec, 1e-9) for i, (_, vec) in enumerate(a["positions"]))
+            ctx.correspond("renew_vs", dict(close=True), dict(close=agree, impl=renewed.tolist(), model=a["positions"])
+                           if not agree else dict(close=True), replay)
+            if items is not None:
+                model_e = float(common.rat_parse(answers[1]["energy"]))
+                agree = close(energy, model_e, 1e-6)
+                ctx.correspond("target_function-energy", dict(close=True), dict(close=agree, impl=energy, model=model_e)
+                               if not agree else dict(close=True), replay)
+        ctx.case(("energy", replay["seed"]), sample=dict(stream="energy", atoms=len(order), sites=len(sites)), stream="energy",
+                 energy_sites=len(sites) if len(sites) < 3 else "3+")
+    return reqs, judge
+
+
 # ------------------------------------------------------------------------------------------ driver
 
-STREAMS = dict(system=system_case, vs=vs_case, cog=cog_case, verdict=verdict_case, volume=volume_case)
+STREAMS = dict(system=system_case, vs=vs_case, cog=cog_case, verdict=verdict_case, volume=volume_case,
+               block=block_case, find=find_case, impropers=impropers_case, expand=expand_case, energy=energy_case)
 
 
 def gen_replays(ctx):
@@ -1138,6 +1594,21 @@ def gen_replays(ctx):
             out.append(dict(stream="system", seed=rng.randint(0, 10 ** 9), scenario=scenario))
     for _ in range(ctx.budget(30, 700)):
         out.append(dict(stream="system", seed=rng.randint(0, 10 ** 9)))
+    # extension streams LAST: the draws above stay what they were for a given VERIF_SEED
+    for first in FIND_TYPES:                          # exhaustive: 7 x 7 ordered type pairs x 6 variants
+        for second in FIND_TYPES:
+            for variant in range(6):
+                out.append(dict(stream="find", first=first, second=second, variant=variant))
+    for _ in range(ctx.budget(80, 2500)):
+        out.append(dict(stream="block", seed=rng.randint(0, 10 ** 9)))
+    for _ in range(ctx.budget(50, 1500)):
+        out.append(dict(stream="impropers", seed=rng.randint(0, 10 ** 9)))
+    for max_count in (0, 1, 2):
+        out.append(dict(stream="expand", seed=rng.randint(0, 10 ** 9), max_count=max_count))
+    for _ in range(ctx.budget(15, 200)):
+        out.append(dict(stream="expand", seed=rng.randint(0, 10 ** 9)))
+    for _ in range(ctx.budget(40, 1000)):
+        out.append(dict(stream="energy", seed=rng.randint(0, 10 ** 9)))
     probe = sorted(s for s in FINDING_SHAPES if enabled(s))
     for rep in out:
         rep["probe"] = probe       # a replay regenerates the same input whatever the environment says
@@ -1180,6 +1651,10 @@ def run(ctx):
         "np.linalg.norm / arccos / sqrt: measured interaction values are inputs of the verdict; the driver recomputes "
         "square roots to 30 digits",
         "vermouth/polyply topology readers (used to build the inputs; they are C08/C09's subject)",
+        "vermouth Molecule/Block containers: add_node on an existing node updates its attributes, "
+        "make_edges_from_interaction_type joins consecutive atoms unless meta['edge'] is false, interactions is a "
+        "defaultdict(list) (modelled in Model/TemplatesBlock.lean, exercised by the `block` stream)",
+        "numpy.isclose default atol = 1e-8 (parameter `atol` of goodImpropers; the stream hits the bound exactly)",
     ]
     ctx.assumptions += [
         "partial: Weisfeiler-Lehman hash is an ORACLE (assumed equal on isomorphic atom-name-labelled graphs; sharing is "
@@ -1188,12 +1663,21 @@ def run(ctx):
         "the tolerance theorem speaks about the verdict, not about convergence)",
         "every residue holds at least one atom with self sigma > 0 (sigma-0 dummy / virtual-site atoms occur next to them)",
         "virtual sites are constructed from real atoms only (renew_vs handles sections in a fixed order)",
+        "block extraction: every atom of a molecule carries the same attribute keys (add_node on a repeated atom name then "
+        "REPLACES the attributes: the model's Dict.set); the dihedral angle handed to _good_impropers and the layouts of "
+        "_expand_inital_coords are inputs of the model; in the `energy` stream sites built from other sites are affine "
+        "ones (normalised constructions of collinear sites are exactly degenerate in rationals, noise in doubles)",
         "documented findings kept out of the default stream until listed in known_findings.txt: "
         + ", ".join(s for s in FINDING_SHAPES if not enabled(s)),
     ]
     ctx.extra["explanation"] = ("correspondence: bookkeeping of templates/sizes (run_system + build file), map_from_CoG, "
-                                "construct_vs, optimize_geometry verdict, compute_volume vs the Lean model; oracle: Lean "
-                                "specification evaluated on the output of the real GenerateTemplates")
+                                "construct_vs, optimize_geometry verdict, compute_volume, extract_block (nodes, kept "
+                                "interactions, defines, edges, side effect on the molecule), _relabel_interaction_atoms, "
+                                "find_interaction_involving (exhaustive over type pairs), _good_impropers, "
+                                "_expand_inital_coords, renew_vs, target_function energy vs the Lean model; oracle: Lean "
+                                "specification evaluated on the output of the real GenerateTemplates, and on the real "
+                                "extract_block: one block node per distinct atom name of the residue, exactly the "
+                                "molecule's interactions lying inside the residue (the template's targets)")
     run_cases(ctx, corpus_cases() + gen_replays(ctx))
 
 
